@@ -1428,12 +1428,15 @@ fn busy_grid(deadline: Option<u128>, latency: Option<u128>) -> Vec<u128> {
     b
 }
 
-/// The reply and the caller's first poll fall on the same instant while a deadline has already
-/// passed: which of the two the caller's task sees first is a scheduling race between tasks
-/// (the spec accepts both; the model predicts one) - such cases are not generated for the kinds
-/// where the reply comes from another task.
+/// Instants at which two TASKS act at once, so that what the caller's task finds depends on the
+/// order in which tokio runs them (the spec accepts either result or names the tie-break, the
+/// model predicts one): the reply is due exactly at a deadline (as for `cli` / `e2e`: "the instant
+/// itself is a scheduling race"), or the reply is due exactly when the caller first polls while a
+/// deadline has already passed.  Not generated for the kinds where the reply comes from another
+/// task (`runl` is single-task: every instant is deterministic there and is generated).
 fn racy(deadlines: &[Option<u128>], latency: Option<u128>, busy: u128) -> bool {
-    latency == Some(busy) && deadlines.iter().flatten().any(|t| *t <= busy)
+    let Some(l) = latency else { return false };
+    deadlines.iter().flatten().any(|t| *t == l) || (l == busy && deadlines.iter().flatten().any(|t| *t <= busy))
 }
 
 pub fn gen_late(tier: &str, rng: &mut Rng) -> Vec<String> {
